@@ -251,8 +251,15 @@ theorem bodySendQuery_eq (go : Call → St → St × Ret) (reqSrv : Option Nat) 
 
 /-- peel a goal `P (…).1` about the result of a body: strip primitive updates with the frame lemmas (plus the
     given simp lemmas), recursive calls with the hypothesis `h` on `go`, and split the control flow -/
-syntax "chan_peel " ident (" [" Lean.Parser.Tactic.simpLemma,* "]")? : tactic
+syntax "chan_peel " ident (" [" Lean.Parser.Tactic.simpLemma,* "]")? (" using " term)? : tactic
 macro_rules
+  | `(tactic| chan_peel $h [$ts,*] using $a) =>
+    `(tactic| repeat (first
+        | with_reducible assumption
+        | with_reducible (apply $h)
+        | with_reducible (apply $a)
+        | (simp only [chan_frame, $ts,*])
+        | (csplit <;> pair_subst)))
   | `(tactic| chan_peel $h [$ts,*]) =>
     `(tactic| repeat (first
         | with_reducible assumption
